@@ -50,7 +50,8 @@ GRID_SIZE = len(GRID)  # 2496
 # completed, each once: one history in twelve is a cancellation in the update of a bounded run (every
 # step 0..N-1 of every (k, N) cell of C15's enumerated family: steps that are multiples of the save
 # interval included), executed and judged by C15's crash-point machinery; of its verdicts the ones about
-# frames, times and records count here.
+# frames, times and records count here. A third of these histories are cancelled inside the frame writer
+# instead (C15's sampled line-level crash points).
 CANCEL_RULES = ("frame-duplicate", "frame-labels", "frames-before-stop", "frame-content", "frame-time", "records-count", "records-dt", "records-mu", "records-theta", "records-screening_iterations", "records-frame0", "records-missing", "solution-times", "dynamics-dt", "dynamics-time", "dynamics-mu", "dynamics-theta", "dynamics-screening_iterations", "partial-frame")
 
 
@@ -65,7 +66,18 @@ def gen(seed, idx, tier):
         from . import c15
 
         cells = _cancel_cells()
-        j = cells[((idx - GRID_SIZE) // 12) % len(cells)]
+        n_ = (idx - GRID_SIZE) // 12
+        if n_ % 3 == 2:
+            # ... or inside the frame writer: the next of C15's sampled crash points that is a Ctrl-C at a
+            # line of the writer (a frame that was being written when the run was cancelled is no frame)
+            j0 = c15.GRID_SIZE + 40 * n_
+            for j in range(j0, j0 + 400):
+                cand = c15.gen(seed, j, tier)
+                fl = cand.get("faults", [])
+                if len(fl) == 1 and fl[0]["kind"] == "sigint" and fl[0]["at"].get("point") == "line" and c15.region_of(fl[0]["at"]) == "writer" and not cand["options"].get("pause_on_interrupt"):
+                    cand["c05_cancel"] = j
+                    return cand
+        j = cells[n_ % len(cells)]
         scn = c15.gen(seed, j, tier)
         scn["c05_cancel"] = j
         return scn
